@@ -22,7 +22,7 @@ LEVEL = "exploration"
 TECHNIQUE = "bounded-exhaustive enumeration of model shapes x function-sharing patterns; generated MxlPy source is executed and the rebuilt model compared with the original"
 LEVEL_TEXT = (
     "Every model in the product of structural shapes (number of variables, 6 coefficient kinds, 5 derived shapes, "
-    "initial-assignment parameter, conditional/time-dependent rates) x 22 function-assignment patterns (incl. many-digit, very small and large literal values) is passed to "
+    "initial-assignment parameter, conditional/time-dependent rates) x 23 function-assignment patterns (incl. many-digit, very small and large literal values) is passed to "
     "generate_mxlpy_code; the source is exec'd, create_model() called, and names/kinds, initial values, parameter "
     "values and (at 4 states x 2 times) derived values, fluxes and derivatives are compared with the original "
     "(rtol 1e-12; printed literals carry 15 digits). Untranslatable functions must make generation raise."
@@ -53,8 +53,9 @@ PATTERNS = [
     "same-name-derived", "own-parameter-names-swapped", "shared-ia-and-derived", "ia-variable", "unit-variable",
     "unit-parameter", "locals-and-conditionals", "untranslatable", "same-name-coinciding-specialisation",
     "repeated-arg-same-specialisation", "hard-literals", "repeated-arg-name-clash", "ignored-param-repeated-last",
-    "ignored-param-repeated-first", "local-import-shadows-module-helper", "generator-internal-names",
+    "ignored-param-repeated-first", "local-import-shadows-module-helper", "generator-internal-names", "edge-tuple-untranslatable",
 ]
+EDGE_PATTERNS = {"edge-tuple-untranslatable"}  # generation may refuse these; whatever it emits must compute the function's value
 STATES = c07.STATES
 TIMES = c07.TIMES
 
@@ -147,6 +148,9 @@ def build_model(case):
         m.add_derived("r_in_stoich_half_plus", F.add2, args=["x1", "q4"])
         m.add_reaction("add2", F.ma1, args=["ma1", "k1"], stoichiometry={"x1": -1})
         m.add_reaction("rs", F.lin, args=["r_in_stoich_half_plus", "k1"], stoichiometry={"x1": -1})
+    elif p == "edge-tuple-untranslatable":
+        m.add_reaction("rs", F.tuple_untr_fn, args=["x1", "k1"], stoichiometry={"x1": -1})
+        m.add_derived("s1", F.tuple_untr_fn, args=["k2", "x1"])
     elif p == "local-import-shadows-module-helper":
         m.add_reaction("rs", F.local_import_fn, args=["x1", "k1"], stoichiometry={"x1": -1})
         m.add_reaction("rs2", F.module_helper_fn, args=["x1", "k2"], stoichiometry={"x1": -1})
@@ -226,7 +230,7 @@ def check(case):
     try:
         src = generate_mxlpy_code(m1)
     except Exception as exc:  # noqa: BLE001
-        if case["pattern"] == "untranslatable":
+        if case["pattern"] == "untranslatable" or case["pattern"] in EDGE_PATTERNS:
             return outcome(True, "refused", nontrivial=nt)
         return outcome(False, "generation-raised", symptom=f"generation-raised:{type(exc).__name__}", nontrivial=nt,
                        detail=f"{type(exc).__name__}: {exc} | {txt}")
